@@ -70,9 +70,14 @@ var tree = map[string][]string{
 	"/missing": {"/missing"},
 	"/hub":     {"/hub"},
 	"/leaf":    {"/leaf"},
+	badRow:     nil,
 }
 
-var preloaded = []string{"/page", "/redir", "/missing", "/hub"}
+// badRow: a queue value that does not parse (an invalid escape; the producer stores outlink texts as they were found):
+// the consumer hands it to the finisher at once. It is the first row, so that everything else is consumed after it.
+const badRow = "/%zz"
+
+var preloaded = []string{badRow, "/page", "/redir", "/missing", "/hub"}
 
 func png(tag string, n int) []byte {
 	b := append([]byte("\x89PNG\r\n\x1a\n\x00\x00\x00\rIHDR"), tag...)
@@ -756,7 +761,7 @@ func main() {
 		"samples": samples, "exhaustive": true, "histories": len(cs), "kill_histories": kills, "stop_histories": stops, "ended_at_the_enumerated_point": fired,
 		"point_not_reached_run_drained": vacuous, "warc_prefixes_read": prefixEvals, "warc_files_prefixed": prefixFiles, "violations_by_signature": sigCount,
 		"hangs_not_reproduced": hangsDismissed, "notes": notes, "page_write_kills": pwKillSummary(cf.Cases), "profiled_points": profileSizes(cf.Profiles), "per_history": walls,
-		"explanation": "history: lq.db pre-loaded with four FRESH rows (page + 2 assets; redirect -> page; 404; page with one outlink, max-hops 1); configurations workers {1,2} x seencheck {on,off}; oracle (a) lq.db is empty after the second run, (b) every row absent at the instant has complete records for every response served for it in the files on disk at that instant (.open included), (c) every row present at the instant is requested again in the second run, (d) every prefix of a final WARC file yields exactly the records wholly contained in it",
+		"explanation": "history: lq.db pre-loaded with five FRESH rows (a value that does not parse, first; page + 2 assets; redirect -> page; 404; page with one outlink, max-hops 1); configurations workers {1,2} x seencheck {on,off}; oracle (a) lq.db is empty after the second run, (b) every row absent at the instant was requested and has complete records for every response served for it in the files on disk at that instant (.open included), (c) every row present at the instant is requested again in the second run, (d) every prefix of a final WARC file yields exactly the records wholly contained in it",
 	}, []string{
 		"kill points are Zeno's synchronisation points and external calls (instrumented), not every machine instruction, and not points inside the WARC library (its output is covered by the prefix enumeration); the process is killed, the page cache survives (no power loss)",
 		"goroutine schedules inside the children are whatever the OS gives",
